@@ -77,3 +77,53 @@ Definition mon_live_owned (provider : bool) (keys : list (str * str * str)) (d :
                            (negb provider || match List.find (fun c => fst c =? x) (wd_cloud d) with
                                              | Some (_, n) => str_eqb n node | None => false end)) ips
      end) (wd_pods d).
+
+(** * monitors, second generation: the predicates of Props/C01.v, C04.v, C10.v evaluated on the
+    implementation's dumps.  [keys] maps the UID of every pod incarnation the history created to
+    its allocation key. *)
+Definition alloc_of (d : wdump) (x : N) : option oent :=
+  match List.find (fun kv => fst kv =? x) (od_alloc (wd_ipam d)) with Some kv => Some (snd kv) | None => None end.
+Definition key_of_uid (keys : list (str * str)) (uid : str) : option str :=
+  match List.find (fun k => str_eqb (fst k) uid) keys with Some k => Some (snd k) | None => None end.
+
+(** [owned] of Proofs/PluginInv.v for every live bound pod: each annotated IP is allocated under the
+    pod's key and stored for the pod's UID; no IP of that key is stored for another incarnation *)
+Definition mon_owned (keys : list (str * str)) (d : wdump) : bool :=
+  forallb (fun o => let '(ns, name, uid, ph, node, ips) := o in
+     negb (live o) ||
+     match ips, key_of_uid keys uid with
+     | _ :: _, Some key =>
+         forallb (fun x => match alloc_of d x with
+                           | Some (k, _, _, u, _) => str_eqb k key && str_eqb u uid
+                           | None => false end) ips &&
+         forallb (fun kv => let '(k, _, _, u, _) := snd kv in
+                            negb (str_eqb k key) || Keys.is_empty u || str_eqb u uid) (od_alloc (wd_ipam d))
+     | _, _ => true
+     end) (wd_pods d).
+
+(** with a provider: every IP of a live bound pod is assigned to the pod's node *)
+Definition mon_cloud_live (d : wdump) : bool :=
+  forallb (fun o => let '(ns, name, uid, ph, node, ips) := o in
+     negb (live o) ||
+     forallb (fun x => match List.find (fun c => fst c =? x) (wd_cloud d) with
+                       | Some (_, n) => str_eqb n node | None => false end) ips) (wd_pods d).
+
+(** the per-IP automaton over the provider's log of successful calls (assign?, ip, node): an IP is
+    never assigned to a node while the provider has it on another one *)
+Fixpoint log_ok (st : list (N * str)) (log : list (bool * N * str)) : bool :=
+  match log with
+  | [] => true
+  | (true, x, n) :: rest =>
+      match List.find (fun c => fst c =? x) st with
+      | Some (_, n') => str_eqb n n' && log_ok st rest
+      | None => log_ok ((x, n) :: st) rest
+      end
+  | (false, x, _) :: rest => log_ok (List.filter (fun c => negb (fst c =? x)) st) rest
+  end.
+
+(** an IP that a step frees or hands to another owner is not assigned at the provider afterwards *)
+Definition mon_freed_unassigned (prev cur : wdump) : bool :=
+  forallb (fun kv => let x := fst kv in
+                     let '(k, _, _, _, _) := snd kv in
+                     match alloc_of cur x with Some (k', _, _, _, _) => str_eqb k k' | None => false end ||
+                     negb (existsb (fun c => fst c =? x) (wd_cloud cur))) (od_alloc (wd_ipam prev)).
